@@ -91,6 +91,11 @@ def cases(tier, rng):
         allows = [[rng.choice(names)] if rng.chance(3, 4) else [] for _e in range(rng.range(2, 3))]
         reqs = list(dict.fromkeys([rng.choice(names) for _ in range(2)] + [variants(rng, rng.choice(names))]))[:3]
         cs.append(mkmulti("c03http", names, allows, reqs))
+    # two endpoints of one kind in one server process (the documentation's DNS example has two), one allowing only x, the other only y:
+    # a request is judged by the allow-list of the endpoint it arrived on (implementation only: real upstreams over loopback)
+    for kind in ("dns", "tcp", "udp"):
+        line = "c03two %s 3 %s %s %s" % (kind, hx(b"x"), hx(b"y"), hx(b"z"))
+        cs.append({"line": line, "key": line, "model": False, "tags": {"src": "two-endpoints-" + kind, "nchan": 2, "nallow": 1, "nreq": 3}})
     for kind in ("socket", "packet", "dns", "stdio", "cfg-socket", "cfg-packet", "cfg-dns", "cfg-stdio"):
         for _ in range(150 if thorough else (25 if not kind.startswith("cfg-") else 12)):
             names, allow = gen(rng)
@@ -112,6 +117,30 @@ def oracle(case, impl):
         return [("crash", "routing case failed to run: " + impl[:200])]
     if toks[0] in ("c03multi", "c03http"):
         return oracle_multi(toks, p, case)
+    if toks[0] == "c03two":
+        eps = impl.split("ep")[1:]
+        if len(eps) != 2:
+            return [("crash", "two-endpoint case failed to run: " + impl[:200])]
+        out = []
+        for i, (ep, mine) in enumerate(zip(eps, ("x", "y"))):
+            w = ep.split()
+            res = []
+            j = 0
+            while j < len(w):
+                if w[j] == "dial":
+                    res.append(int(w[j + 1]))
+                    j += 2
+                else:
+                    res.append(None)
+                    j += 1
+            for rq, got in zip(("x", "y", "z"), res):
+                if got is not None and rq != mine:
+                    out.append(("exposed;two-endpoints=" + toks[1], "endpoint %d allows only %r, yet a request for %r arriving on it was connected (target %d)" % (i, mine, rq, got)))
+                if got is None and rq == mine:
+                    out.append(("refused-configured;two-endpoints=" + toks[1], "endpoint %d allows %r but refused it" % (i, mine)))
+                if got is not None and got != {"x": 0, "y": 1}.get(rq):
+                    out.append(("wrong-target", "request %r connected to target %d" % (rq, got)))
+        return out
     if toks[0] == "c03start":
         # what an endpoint of this kind serves once started: with an allow-list exactly the table entries it names, nothing else
         names, pos = parse_names(toks, 2)
